@@ -1,10 +1,10 @@
 (* C12 -- A pooled message has one owner at a time.
-   Statements only; proofs in Pool/Proofs.v.  PARTIAL by design: the theorems cover the
-   ownership automaton, the library's paths as modelled in Pool/Model.v and every
-   interleaving of them; that the Go code has no OTHER path is established only by
+   Statements only; proofs in Pool/Proofs.v, Pool/Paths.v, Pool/BoundedProofs.v.  PARTIAL by design: the
+   theorems cover the ownership automaton, the library's paths as modelled in Pool/Model.v, every n-ary
+   interleaving of them and the pool's counter; that the Go code has no OTHER path is established only by
    running the monitor on the lifecycle traces of real executions. *)
 From Coq Require Import ZArith NArith List Bool.
-From GoCoap Require Import Pool.Model Pool.Spec Pool.Proofs.
+From GoCoap Require Import Pool.Model Pool.Spec Pool.Proofs Pool.Paths Pool.Bounded Pool.BoundedProofs.
 Import ListNotations.
 Open Scope Z_scope.
 
@@ -50,7 +50,109 @@ Theorem C12_interleaving_safe : forall a b t, merge a b t -> disjoint a b -> acc
 Proof. exact interleaving_safe. Qed.
 Print Assumptions C12_interleaving_safe.
 
+(* ---- the paths of net/client, net/blockwise, net/observation, AsyncPing and the response writer ---- *)
+
+(* Client.Get/Post/Put/Delete: the request is the library's (`defer release(req)`), the response the caller's *)
+Theorem C12_path_client_call : forall req clone tmps resp,
+  NoDup (tmps ++ [clone; req] ++ olist resp) -> accepted (path_client_call req clone tmps resp).
+Proof. exact path_client_call_ok. Qed.
+Print Assumptions C12_path_client_call.
+
+(* block-wise Do with a large body: the temporary first-block request, one SetMessage exchange per 2.31 *)
+Theorem C12_path_bw_upload : forall req tmp blocks resp,
+  NoDup (objs3 blocks ++ [tmp; req] ++ olist resp) -> accepted (path_bw_upload req tmp blocks resp).
+Proof. exact path_bw_upload_ok. Qed.
+Print Assumptions C12_path_bw_upload.
+
+(* block-wise download: copies of the sent request, requests for the next block, the cached received message
+   that ends in the caller's hands *)
+Theorem C12_path_bw_download : forall req blocks sr w m cached,
+  NoDup (objs4 blocks ++ [sr; w; m; req; cached]) -> accepted (path_bw_download req blocks (sr, w, m) cached).
+Proof. exact path_bw_download_ok. Qed.
+Print Assumptions C12_path_bw_download.
+
+(* serving side: reassembled request lent to the handler; first block of a large response through Swap *)
+Theorem C12_path_bw_serve_upload : forall blocks w m cached,
+  NoDup (objs3 blocks ++ [cached; w; m]) -> accepted (path_bw_serve_upload blocks (w, m) cached).
+Proof. exact path_bw_serve_upload_ok. Qed.
+Print Assumptions C12_path_bw_serve_upload.
+
+Theorem C12_path_bw_serve_first : forall m orig s observe,
+  NoDup [m; orig; s] -> accepted (path_bw_serve_first m orig s observe).
+Proof. exact path_bw_serve_first_ok. Qed.
+Print Assumptions C12_path_bw_serve_first.
+
+(* a notification inside the observe callback *)
+Theorem C12_path_notification : forall n w, n <> w -> accepted (path_notification n w).
+Proof. exact path_notification_ok. Qed.
+Print Assumptions C12_path_notification.
+
+(* AsyncPing: the request is the pending entry's message and is released once, whatever consumes the entry *)
+Theorem C12_path_async_ping : forall req tmps w,
+  NoDup (tmps ++ [req] ++ olist w) -> accepted (path_async_ping req tmps w).
+Proof. exact path_async_ping_ok. Qed.
+Print Assumptions C12_path_async_ping.
+
+(* the response writer: SetMessage releases the replaced message exactly once, Swap not at all *)
+Theorem C12_path_handler_setmessage : forall m w new, NoDup [m; w; new] -> accepted (path_handler_setmessage m w new).
+Proof. exact path_handler_setmessage_ok. Qed.
+Print Assumptions C12_path_handler_setmessage.
+
+Theorem C12_path_handler_swap : forall m w new, NoDup [m; w; new] -> accepted (path_handler_swap m w new).
+Proof. exact path_handler_swap_ok. Qed.
+Print Assumptions C12_path_handler_swap.
+
+Theorem C12_setmessage_double_release_rejected : forall m w new,
+  check ([Hold m; Rel w; Rec w; Rel w; Rec w; Unhold m true] ++ rel new ++ rel m) <> 0%N.
+Proof. exact setmessage_double_release_rejected. Qed.
+Print Assumptions C12_setmessage_double_release_rejected.
+
+(* ---- n-ary interleaving: ANY number of accepted traces over pairwise disjoint objects, merged in ANY order ---- *)
+Theorem C12_interleaving_safe_n : forall ls t,
+  interleave ls t -> pairwise_disjoint ls -> Forall accepted ls -> accepted t.
+Proof. exact interleaving_safe_n. Qed.
+Print Assumptions C12_interleaving_safe_n.
+
+(* a release refused by a full pool is the same path without its Rec event: still accepted (so each path theorem
+   also covers the variants of its path under a full pool) *)
+Theorem C12_refused_release_safe : forall a o b,
+  accepted (a ++ Rec o :: b) -> (forall e, In e b -> obj e <> o) -> accepted (a ++ b).
+Proof. exact refused_release_safe. Qed.
+Print Assumptions C12_refused_release_safe.
+
+(* in particular any number of library paths (lib_path: the thirteen path shapes above, each on distinct objects)
+   running concurrently satisfy the property as stated *)
+Theorem C12_lib_paths_interleaved_safe : forall ps t,
+  Forall lib_path ps -> pairwise_disjoint ps -> interleave ps t -> c12_class t = 0%N.
+Proof. exact lib_paths_interleaved_safe. Qed.
+Print Assumptions C12_lib_paths_interleaved_safe.
+
+(* ---- the pool is bounded: Pool.ReleaseMessage's CAS loop and AcquireMessage's Get/Dec as atomic steps of any
+   number of threads under any schedule (sync.Pool may return nil or lose objects at any time) ---- *)
+Theorem C12_pool_bounded : forall mx progs sched, 0 <= mx ->
+  0 <= inpool (run mx progs sched) <= mx /\ 0 <= counter (run mx progs sched) <= mx.
+Proof. exact pool_bounded. Qed.
+Print Assumptions C12_pool_bounded.
+
+(* the step-by-step check applied to observed sequential scripts is that model with a single thread *)
+Theorem C12_seq_ok_is_a_run : forall mx ops c n, seq_ok mx c n ops = true ->
+  fold_left (step mx) (seq_sched mx c ops) (mkP c n [mkT (map op_of ops) Idle]) =
+  mkP (fst (seq_final mx c n ops)) (snd (seq_final mx c n ops)) [mkT [] Idle].
+Proof. exact seq_ok_is_a_run. Qed.
+Print Assumptions C12_seq_ok_is_a_run.
+
 Example C12_instance :
   check (path_receive 1 2 ++ path_reuse 2 (path_receive_hijacked 2 3)) = 0%N /\
   check [Rel 1; Rec 1; Rel 1] = 1%N /\ check [Hold 1; Rel 1] = 2%N /\ check [Rel 1; Rec 1; Reacq 1 false] = 4%N.
 Proof. vm_compute. repeat split. Qed.
+
+(* three concurrent paths (a block-wise download, a notification, an AsyncPing) in one of their interleavings, and
+   two threads releasing into a pool of capacity 1: the second release is refused *)
+Example C12_instance_n :
+  (exists t, interleave [path_bw_download 1 [(2, 3, 4, 5)] (6, 7, 8) 9; path_notification 10 11; path_async_ping 12 [13] (Some 14)] t
+             /\ length t = 33%nat /\ check t = 0%N) /\
+  inpool (run 1 [[ORel]; [ORel]] [Step 0 true; Step 1 true; Step 0 true; Step 1 true; Step 0 true; Step 1 true; Step 1 true]) = 1.
+Proof.
+  split; [|vm_compute; reflexivity].
+  eexists. split; [apply interleave_concat|]. vm_compute. split; reflexivity.
+Qed.
